@@ -12,6 +12,7 @@
   a child point at infinity (`hK`, or the dedicated theorem `pub_priv_child_zero_key`).
 -/
 import Buidl.Proofs.HD
+import Buidl.Proofs.HDLibPaths
 namespace Buidl.Props.C08
 open Buidl Buidl.EC Buidl.PyStr Buidl.HD
 
@@ -240,6 +241,39 @@ theorem blind_xpub_is_key_at_combined_path (hash256 : Bytes → Bytes) (root kp 
     (hkf : root.traverse hmac h160 full = some kf) :
     kf.pub.xpub hash256 none = some cx :=
   blind_is_key_at_combined_path_rel hmac h160 hash256 groupAdd root kp kf x p s cx full hp hs hkp hx hb hkf
+
+/-! ## paths written by the library itself -/
+
+/-- blinding.secure_secret_path(depth) with the values `rands` returned by `randbelow`: for 1 ≤ depth < 32 the path
+    `m/r1/r2/…` is produced, and traversing it from a public key is deriving the children r1, r2, … in turn -/
+theorem secure_secret_path_traverse (p : HDPub) (rands : List Nat) (h1 : 1 ≤ rands.length) (h2 : rands.length < 32) :
+    ∃ path, secureSecretPath rands = some path ∧
+      p.traverse hmac h160 path = rands.foldlM (fun q r => q.childI hmac h160 (r : Int)) p :=
+  pub_traverse_secret_path hmac h160 p rands h1 h2
+
+theorem secure_secret_path_traverse_priv (k : HDPriv) (rands : List Nat) (h1 : 1 ≤ rands.length)
+    (h2 : rands.length < 32) :
+    ∃ path, secureSecretPath rands = some path ∧
+      k.traverse hmac h160 path = rands.foldlM (fun q r => q.childI hmac h160 (r : Int)) k :=
+  priv_traverse_secret_path hmac h160 k rands h1 h2
+
+/-- helper.child_to_path writes `/<n>` or `/<n - 2^31>'`; HDPrivateKey.traverse reads the component back as the
+    same child number, for every n -/
+theorem child_to_path_roundtrip (cn : Nat) :
+    childToPath cn = '/' :: pathComponent cn ∧ privIndex (pathComponent cn) = some (cn : Int) :=
+  ⟨childToPath_eq cn, privIndex_pathComponent cn⟩
+
+/-- helper.parse_binary_path on the concatenated 4-byte little-endian child numbers (PSBT key origins) gives
+    `m/c1/c2/…` in child_to_path notation … -/
+theorem parse_binary_path_encode (is : List Nat) (h : ∀ i ∈ is, i < 2 ^ 32) :
+    parseBinaryPath ((is.map (natToLE' 4)).flatten) = some (join '/' (['m'] :: is.map pathComponent)) :=
+  parseBinaryPath_encode is h
+
+/-- … and traversing that text derives exactly the encoded children, hardened ones included -/
+theorem parse_binary_path_traverse (k : HDPriv) (is : List Nat) (h : ∀ i ∈ is, i < 2 ^ 32) :
+    ∃ path, parseBinaryPath ((is.map (natToLE' 4)).flatten) = some path ∧
+      k.traverse hmac h160 path = is.foldlM (fun q i => q.childI hmac h160 (i : Int)) k :=
+  priv_traverse_binary_path hmac h160 k is h
 
 /-! ## finding F08a -/
 
